@@ -3,7 +3,7 @@ import ILV.Model.Catalog
 /-
   C16 driver.  Request: `c16.run | item ; item ; …` with items
     rr <name> <cid> | rd <name> | rP <prefix> | rc <name> | rp <name> <idx> <cid> | rx <name> <idx>
-    sr <rel> <sid> | su <rel> <sid> | sx <rel> | dr <name>          each optionally followed by `@<j>[e|l|p<permille>]`
+    sr <rel> <sid> | su <rel> <sid> | sx <rel> | dr <name> | ss <rel> <sid> | sS <rel> <sid> | sc     each optionally followed by `@<j>[e|l|p<permille>]`
     R                       crash between operations, all writes complete
     T r|s e|l|p<permille>   crash between operations, the rule (r) / schema (s) catalog file torn
   (an implicit `R` ends every history).  Output: one token per item,
@@ -54,6 +54,9 @@ def opOfWire : List String → Option COp
   | ["sr", r, s] => s.toNat?.map (fun s => .sreg (nameOfWire r) (schemaOf s))
   | ["su", r, s] => s.toNat?.map (fun s => .supd (nameOfWire r) (schemaOf s))
   | ["sx", r] => some (.srem (nameOfWire r))
+  | ["ss", r, s] => s.toNat?.map (fun s => .ssupd (nameOfWire r) (schemaOf s))
+  | ["sS", r, s] => s.toNat?.map (fun s => .ssreg (nameOfWire r) (schemaOf s))
+  | ["sc"] => some .sclear
   | ["dr", n] => some (.dropRel (nameOfWire n))
   | _ => none
 
@@ -120,7 +123,8 @@ def renderSchemas (s : SchemaCat) : String :=
   let es := sortBy (fun (a b : Name × Schema) => leName a.1 b.1) s
   ";".intercalate (es.map (fun e => nameToWire e.1 ++ ":" ++ toString e.2.id))
 
-def renderMem (m : Mem) : String := "R(" ++ renderRules m.rules ++ ")S(" ++ renderSchemas m.schemas ++ ")"
+def renderMem (m : Mem) : String :=
+  "R(" ++ renderRules m.rules ++ ")S(" ++ renderSchemas m.schemas ++ ")s(" ++ renderSchemas m.session ++ ")"
 
 def renderAck : Ack → String
   | .ok => "ok"
@@ -145,10 +149,13 @@ def runW (st : St) : List WItem → List Out
     | (o, some st') => o :: runW st' rest
     | (o, none) => [o]
 
-def splitMem (s : String) : String × String :=
+/-- `R(rules)S(persistent)s(session)` → the three parts -/
+def splitMem (s : String) : String × String × String :=
   match s.splitOn ")S(" with
-  | [a, b] => (a, b)
-  | _ => (s, "")
+  | [a, b] => match b.splitOn ")s(" with
+    | [p, q] => (a, p, q)
+    | _ => (a, b, "?")
+  | _ => (s, "", "?")
 
 /-- Spec on the implementation's own tokens: the engine reopened and each catalog is the old or the new one. -/
 def judge (model : List Out) (impl : List String) : String :=
@@ -162,10 +169,11 @@ def judge (model : List Out) (impl : List String) : String :=
       | [old, new, got] =>
         if got == "err:open-failed" then some (specFail "unclassified" "engine-does-not-open")
         else
-          let (ro, so) := splitMem old
-          let (rn, sn) := splitMem new
-          let (rg, sg) := splitMem got
-          if (rg == ro || rg == rn) && (sg == so || sg == sn) then none
+          let (ro, so, _) := splitMem old
+          let (rn, sn, _) := splitMem new
+          let (rg, sg, ssg) := splitMem got
+          if ssg != ")" then some (specFail "unclassified" "session-schema-survived-restart")
+          else if (rg == ro || rg == rn) && (sg == so || sg == sn) then none
           else some (specFail "unclassified" "catalog-neither-old-nor-new")
       | _ => some (specFail "unclassified" "unparsable-reboot-token"))
   match bad with
